@@ -48,7 +48,7 @@ type Exec struct {
 	crashAt   string
 	ev        *eventState
 	encLog    []sym.Sc
-	regexps   map[*Value]string
+	regexps   map[*Value]*reCompiled
 	allocHook func(instr *ssa.MakeSlice, elem types.Type, n sym.Sc)
 }
 
